@@ -45,6 +45,7 @@ def geometries(tier):
                 out.append(dict(df=df, dt=dt, fch1=fch1, asc=asc, tchans=3, fchans=6))
         # a frame whose own time axis does not start at zero (the values are defined at the frame's OWN axes)
         out.append(dict(df=1.0, dt=1.0, fch1=100.0, asc=True, tchans=3, fchans=6, ts0=37.5))
+        out.append(dict(df=1.0, dt=1.0, fch1=100.0, asc=True, tchans=3, fchans=6, ts0=37.5, tsgap=4.25))
     else:
         for (df, dt, fch1) in GEOM3:
             for asc in (True, False):
@@ -54,6 +55,7 @@ def geometries(tier):
         for asc in (True, False):
             for ts0 in (37.5, -2.25):
                 out.append(dict(df=1.0, dt=1.0, fch1=100.0, asc=asc, tchans=3, fchans=6, ts0=ts0))
+            out.append(dict(df=1.0, dt=1.0, fch1=100.0, asc=asc, tchans=3, fchans=6, ts0=37.5, tsgap=4.25))
     return out
 
 
@@ -147,6 +149,11 @@ def make_frame(g):
                    ascending=g['asc'], t_start=0.0)
     if g.get('ts0'):
         fr.ts = fr.ts + g['ts0']
+    if g.get('tsgap'):
+        # a time axis with a gap after the first row (what a consolidated cadence hands out)
+        ts = np.array(fr.ts, dtype=float)
+        ts[1:] += g['tsgap']
+        fr.ts = ts
     return fr
 
 
@@ -160,7 +167,7 @@ def zero_frame(g):
     the axes alone, which is verified bit for bit after EVERY call (`axes_intact`) -- a frame whose axes
     moved is reported and discarded.
     """
-    key = (g['fchans'], g['tchans'], g['df'], g['dt'], g['fch1'], g['asc'], g.get('ts0', 0.0))
+    key = (g['fchans'], g['tchans'], g['df'], g['dt'], g['fch1'], g['asc'], g.get('ts0', 0.0), g.get('tsgap', 0.0))
     ent = _FRAMES.get(key)
     if ent is None:
         fr = make_frame(g)
@@ -183,7 +190,7 @@ def _ones_profile(f, f_center):
 
 
 def axes_intact(g):
-    key = (g['fchans'], g['tchans'], g['df'], g['dt'], g['fch1'], g['asc'], g.get('ts0', 0.0))
+    key = (g['fchans'], g['tchans'], g['df'], g['dt'], g['fch1'], g['asc'], g.get('ts0', 0.0), g.get('tsgap', 0.0))
     fr, fs0, ts0, sc = _FRAMES[key]
     ok = (np.array_equal(fr.fs, fs0) and np.array_equal(fr.ts, ts0) and fr.data.shape == (sc[4], sc[3])
           and (fr.df, fr.dt, fr.fch1, fr.fchans, fr.tchans) == sc)
